@@ -644,7 +644,10 @@ func RunMain(id, tier string, replayIdx int) int {
 				}
 				// abnormal end: attribute to the journaled case
 				idx, class := readJournal(jr)
-				stderrTxt := tail(errf, 1<<20)
+				stderrTxt := deathReport(errf)
+				if stderrTxt == "" {
+					stderrTxt = tail(errf, 1<<18)
+				}
 				kind, site := classifyDeath(stderrTxt, werr)
 				input, _ := os.ReadFile(jr + ".input")
 				if idx < 0 {
@@ -759,6 +762,34 @@ func readJournal(path string) (int, string) {
 		class = strings.TrimSpace(lines[1])
 	}
 	return idx, class
+}
+
+// deathReport extracts from a (possibly huge, log-flooded) stderr file the first fatal marker and the lines after it.
+func deathReport(path string) string {
+	f, err := os.Open(path)
+	if err != nil {
+		return ""
+	}
+	defer f.Close()
+	sc := bufio.NewScanner(f)
+	sc.Buffer(make([]byte, 1<<20), 1<<26)
+	var out []string
+	capturing := 0
+	for sc.Scan() {
+		l := sc.Text()
+		if capturing == 0 && (strings.HasPrefix(l, "fatal error:") || strings.HasPrefix(l, "panic:") || strings.HasPrefix(l, "VERIF-WATCHDOG") ||
+			strings.HasPrefix(l, "runtime: out of memory") || strings.HasPrefix(l, "runtime: goroutine stack exceeds") || strings.HasPrefix(l, "SIG")) {
+			capturing = 400
+		}
+		if capturing > 0 {
+			out = append(out, l)
+			capturing--
+			if capturing == 0 {
+				break
+			}
+		}
+	}
+	return strings.Join(out, "\n")
 }
 
 func tail(path string, n int64) string {
